@@ -75,6 +75,9 @@ mod v {
 
 /// the family extended by a map-typed field, read under DuplicateKeyPolicy::LastWins (a repeated key: the last entry is the
 /// value that is used, so that is where its fields are located)
+fn ok_default() -> String {
+    "ok".to_string()
+}
 mod x {
     use garde::Validate;
     use serde::Deserialize;
@@ -88,6 +91,10 @@ mod x {
         pub tag: String,
         #[serde(default)]
         pub extras: BTreeMap<String, super::p::Inner>,
+        #[serde(rename = "TAG2", default = "super::ok_default")]
+        pub tag2: String,
+        #[serde(rename = "a-bc", default = "super::ok_default")]
+        pub ab_c: String,
     }
     #[derive(Deserialize, Debug, Validate, PartialEq)]
     pub struct GOuter {
@@ -103,6 +110,14 @@ mod x {
         #[garde(dive)]
         #[serde(default)]
         pub extras: BTreeMap<String, super::g::Inner>,
+        // names that only the looser passes of the path lookup can bridge: differing in letter case only (`TAG2` / `tag2`),
+        // and with different token boundaries (`a-bc` / `ab_c`: equal only once every separator is dropped)
+        #[garde(length(min = 1))]
+        #[serde(rename = "TAG2", default = "super::ok_default")]
+        pub tag2: String,
+        #[garde(length(min = 1))]
+        #[serde(rename = "a-bc", default = "super::ok_default")]
+        pub ab_c: String,
     }
 }
 
@@ -424,6 +439,12 @@ fn random_doc(rng: &mut Rng) -> Vec<AEv> {
         }
     }
     if EXTRAS.with(|e| e.get()) {
+        for key in ["TAG2", "a-bc"] {
+            if rng.chance(2, 3) {
+                out.push(sc(key));
+                out.push(if rng.chance(1, 2) { AEv::new("S", 0, "", "d", "") } else { sc("ok") });
+            }
+        }
         // a map-typed field whose keys may repeat (read under LastWins)
         out.push(sc("extras"));
         out.push(AEv::new("MS", 0, "", "p", ""));
